@@ -30,6 +30,8 @@ P_Exact(t, d, ok) == ok <=> (d = 0 \/ ClassDepth(t) <= d)                 \* d =
 Bound(size, depth) == 8 * size * (depth + 1) * (depth + 1) + 64
 P_Cost(size, depth, work) == work <= Bound(size, depth)
 
+\* M, one step: the depth a new context gets (RuntimeContext.__init__): a route-less context is one more data-class level
+CtxDepth(parentDepth, routeNone, falsy) == parentDepth + (IF routeNone THEN 1 ELSE IF Variant = "orig" /\ falsy THEN 1 ELSE 0)
 \* M: deepest context depth reached while walking the input (Inf on a cycle)
 RECURSIVE Deepest(_, _)
 Deepest(t, depth) ==
